@@ -141,22 +141,38 @@ var c06 = Register("C06", "C06.text", func(a c06Args) *Violation {
 			return violf("%s of %s = %q does not denote the value", o.name, n, abbr(o.got))
 		}
 	}
-	// lossless interchange
-	p, perr := d128.Parse(s)
-	var u, sc d128.Decimal
-	uerr := u.UnmarshalText(mt)
-	_, serr := fmt.Sscan(s, &sc)
-	for _, r := range []struct {
-		name string
-		d    d128.Decimal
-		err  error
-	}{{"Parse", p, perr}, {"UnmarshalText", u, uerr}, {"Sscan", sc, serr}} {
-		if r.err != nil || !r.d.Equal(d) || r.d.Signbit() != d.Signbit() {
-			return violf("%s(%q) = %s, %v; want a Decimal equal to %s", r.name, s, ref.Decode(r.d), r.err, n)
+	// lossless interchange: the text denotes d exactly, so it must read back as d whatever the
+	// DefaultRoundingMode is (one mode per case, chosen by the case's hash; every text form is fed back)
+	mode := ref.Modes[hashWords(a.V.Hi, a.V.Lo, 77)%6]
+	texts := []string{s, we}
+	if doF {
+		texts = append(texts, wf)
+	}
+	var rv *Violation
+	withDefaultMode(mode, func() {
+		for _, txt := range texts {
+			p, perr := d128.Parse(txt)
+			var u, sc d128.Decimal
+			uerr := u.UnmarshalText([]byte(txt))
+			_, serr := fmt.Sscan(txt, &sc)
+			for _, r := range []struct {
+				name string
+				d    d128.Decimal
+				err  error
+			}{{"Parse", p, perr}, {"UnmarshalText", u, uerr}, {"Sscan", sc, serr}} {
+				if r.err != nil || !r.d.Equal(d) || r.d.Signbit() != d.Signbit() {
+					rv = violf("%s(%q) under DefaultRoundingMode=%v = %s, %v; want a Decimal equal to %s", r.name, abbr(txt), mode, ref.Decode(r.d), r.err, n)
+					return
+				}
+				if !ref.SameVal(ref.Decode(r.d), n) {
+					rv = violf("%s(%q) under DefaultRoundingMode=%v = %s differs in value from %s", r.name, abbr(txt), mode, ref.Decode(r.d), n)
+					return
+				}
+			}
 		}
-		if !ref.SameVal(ref.Decode(r.d), n) {
-			return violf("%s(%q) = %s differs in value from %s", r.name, s, ref.Decode(r.d), n)
-		}
+	})
+	if rv != nil {
+		return rv
 	}
 	// the string returned earlier is not disturbed by later calls
 	other := ref.FromBits(a.V.Hi^0x0003_0000_0000_0000, a.V.Lo^0x5555)
